@@ -337,3 +337,43 @@ def run(chk, tier):
         chk.ok('O6', 'clear', '*write-guard = State::new(..)')
     else:
         chk.fail('O6', 'clear', fn_loc(fc), 'clear must replace the whole State by a fresh State::new(..) through one write guard', key='O6|clear')
+    # the state after a clear is the tracer's *empty* state: State::new receives the same configuration in `new` and in `clear`, each
+    # StateConfig field taken from the tracer parameter of the same name
+    fnw = prog.find(r'TracerInner::new$')
+    SC = [k for k in prog.adts if k.endswith('::StateConfig')][0]
+    scn = [x['name'] for x in prog.adt(SC)['variants'][0]['fields']]
+    for f_, pref in ((fnw, ''), (fc, 'self.')):
+        e6 = Engine(prog, inline_depth=1)
+        st6 = St()
+        args6 = [e6.sym_ref(st6, 'self')] if f_ is fc else [('sym', f_['locals'][i]['name'] or 'a%d' % i) for i in range(1, f_['argc'] + 1)]
+        cfgs = []
+        for o_ in e6.run(f_, args6, st6):
+            for c in user_calls(o_, r'state::State::new$'):
+                cfgs.append(c[7][0])
+        inst = 'state-config@%s' % short(f_['path'])
+        good = bool(cfgs) and bool(scn)
+        got = None
+        for v in cfgs:
+            if not (isinstance(v, tuple) and v[0] == 'adt' and v[1] == SC):
+                good = False
+                got = vshow(v)[:120]
+                continue
+            got = dict(zip(scn, [vshow(x) for x in v[4]]))
+            if any(got[n] != pref + n for n in scn):
+                good = False
+        if f_ is fnw and good:
+            # the fields `clear` reads back are initialised from the same parameters
+            ti6 = fnw.get('impl_adt')
+            tin = [x['name'] for x in prog.adt(ti6)['variants'][0]['fields']] if ti6 in prog.adts else []
+            for o_ in [o_ for o_ in e6.run(fnw, args6, St()) if o_.kind == 'return']:
+                v = o_.value
+                if isinstance(v, tuple) and v[0] == 'adt' and v[1] == ti6:
+                    fv = dict(zip(tin, [vshow(x) for x in v[4]]))
+                    if any(fv.get(n) != n for n in scn):
+                        good = False
+                        got = {n: fv.get(n) for n in scn}
+        if good:
+            chk.ok('O6', inst, 'State::new(StateConfig { %s })' % ', '.join('%s: %s%s' % (n, pref, n) for n in scn))
+        else:
+            chk.fail('O6', inst, fn_loc(f_), '%s builds its State from %s; every StateConfig field must come from the tracer parameter of the same name, so that a cleared state equals the initial empty state' % (short(f_['path']), got),
+                     key='O6|state-config|%s' % short(f_['path']))
